@@ -14,14 +14,28 @@ CONSTANTS MaxStmts = %d
  MaxLen = %d
  LoopElse = %s
  Funcs = %s
+ Allowed = {%s}
 INVARIANT Emit
 CHECK_DEADLOCK FALSE
 """
 
 
-def enumerate_skeletons(max_stmts=4, max_d=3, max_len=2, loop_else=False, funcs=False, workers=8, timeout=600):
+ALL = ("s", "if", "ifelse", "while", "for", "with", "tryf", "trye", "tryef", "whileelse", "forelse", "def",
+       "break", "continue", "return", "raise")
+FAMILIES = dict(
+    exc=("s", "if", "ifelse", "trye", "tryef", "tryf", "return", "raise"),
+    loop=("s", "if", "ifelse", "while", "for", "break", "continue", "return"),
+    loopexc=("s", "while", "for", "trye", "tryf", "tryef", "break", "continue", "raise", "return"),
+    fun=("s", "if", "for", "while", "def", "return"),
+    ctx=("s", "if", "with", "for", "tryf", "return", "break", "raise"),
+)
+
+
+def enumerate_skeletons(max_stmts=4, max_d=3, max_len=2, loop_else=False, funcs=False, workers=8, timeout=600, allowed=ALL):
+    if loop_else and allowed is not ALL:
+        allowed = tuple(allowed) + tuple(x for x in ("whileelse", "forelse") if x not in allowed)
     res = tlc.run_tlc('MiniPyGen', GEN_CFG % (max_stmts, max_d, max_len, 'TRUE' if loop_else else 'FALSE',
-                                              'TRUE' if funcs else 'FALSE'),
+                                              'TRUE' if funcs else 'FALSE', ', '.join('"%s"' % a for a in allowed)),
                       workers=workers, timeout=timeout, name='gen').require_ok('MiniPyGen')
     sk = [j for j in res.json if isinstance(j, list)]
     sk.sort()
@@ -29,10 +43,12 @@ def enumerate_skeletons(max_stmts=4, max_d=3, max_len=2, loop_else=False, funcs=
 
 
 class Decorator:
-    def __init__(self, rnd, names=('x', 'y'), simple_tests=0.8):
+    def __init__(self, rnd, names=('x', 'y'), simple_tests=0.8, closure_bias=False):
         self.r = rnd
         self.names = list(names)
         self.simple_tests = simple_tests
+        self.closure_bias = closure_bias     # nested functions mostly read / rebind the enclosing function's variables
+        self.infn = 0
 
     def reads(self, b, scope, hi=2):
         return [self.r.choice(scope) for _ in range(self.r.randint(0, hi))]
@@ -65,6 +81,13 @@ class Decorator:
         if self.pos != len(toks):
             raise common.MachineryError('skeleton not consumed: %r' % (toks,))
         return b.finish()
+
+    def _reads_of(self, b, e):
+        x = b.exprs[e - 1]
+        out = set(x['reads']) | ({x['name']} if x['name'] else set())
+        for a in x['args']:
+            out |= self._reads_of(b, a)
+        return out
 
     def peek(self):
         return self.toks[self.pos] if self.pos < len(self.toks) else None
@@ -143,8 +166,10 @@ class Decorator:
             np_ = r.choice([0, 1, 1, 2])
             params = ['p', 'q'][:np_]
             fid = b.fn('g%d' % (len(b.fns) + 1), params, fn)
-            b.fns[fid - 1]['nonlocals'] = r.sample(self.names, r.choice([0, 0, 1]))
-            b.fns[fid - 1]['body'] = self.block(b, fid, scope + params)
+            b.fns[fid - 1]['nonlocals'] = r.sample(self.names, r.choice([0, 0, 1] if not self.closure_bias else [0, 1, 1]))
+            self.infn += 1
+            b.fns[fid - 1]['body'] = self.block(b, fid, (self.names * 3 + params) if self.closure_bias else scope + params)
+            self.infn -= 1
             self.take('end')
             return b.node(kind='def', fn=fn, name=b.fns[fid - 1]['name'], f=fid)
         if t in ('call', 'callnr'):
@@ -152,8 +177,14 @@ class Decorator:
             f = max(i for i in range(1, len(b.fns) + 1) if b.fns[i - 1]['parent'] == fn)
             form = r.choice(['assign', 'assign', 'expr'] + (['return'] if t == 'call' else []))
             args = [r.choice(scope) for _ in b.fns[f - 1]['params']]
+            tgt = r.choice(self.names)
+            if self.closure_bias:
+                # the call result often overwrites a variable the callee itself uses (the statement kills what it reads)
+                used = sorted({nm for d in b.nodes if d['fn'] == f and d['e'] for nm in self._reads_of(b, d['e'])} & set(self.names))
+                if used and r.random() < 0.6:
+                    tgt = r.choice(used)
             return b.node(kind='call', fn=fn, name=b.fns[f - 1]['name'], form=form, args=args,
-                          tgt=[r.choice(self.names)] if form == 'assign' else [])
+                          tgt=[tgt] if form == 'assign' else [])
         raise common.MachineryError('unknown skeleton token %r' % (t,))
 
 
